@@ -1,7 +1,7 @@
 (* C06 - detection flags exactly the violating records and agrees with verification. *)
 From Coq Require Import ZArith List Bool.
 From Tdda Require Import Base.Sexp Base.Str Generated.Consts Constraints.Model Constraints.ModelProofs
-  Constraints.Detect Constraints.DetectProofs.
+  Constraints.Detect Constraints.DetectProofs Constraints.ClosureDetect.
 Import ListNotations.
 Open Scope Z_scope.
 
@@ -91,3 +91,10 @@ Example C06_example :
                       [(c, [CMax (Some {| b_value := VNum 3; b_fuzzed := VNum 3; b_prec := PClosed |});
                             CNoDup (Some true); CMaxNulls (Some 0)])] 4) = [0; 1; 2; 2].
 Proof. vm_compute. reflexivity. Qed.
+
+(* dataset level (any number of fields, constraints and records): detection produces no flag column exactly
+   when verification of the same fields with the same constraints counts no failure *)
+Theorem C06_detect_agrees_with_verify : forall p fields nrows,
+  d_columns (detect p fields nrows) = [] <-> v_failures (verify_dataset p (as_fields fields)) = 0.
+Proof. exact detect_agrees_with_verify_proof. Qed.
+Print Assumptions C06_detect_agrees_with_verify.
